@@ -112,6 +112,18 @@ def judge_project(spec: dict, rng: random.Random, props=("C01", "C08", "C09"), t
         _count(base_res, stats)
         builds = [_entry("base", api_a, A, cs, None, True, "0", base_res, "none")]
         out["oplog"] = base_res.get("oplog")
+        out["records"] = base_res.get("records")
+        # what the real archive says (read before the scratch data is deleted): RECORD rows and member modes
+        try:
+            import zipfile, csv, io
+            wp = base_res.get("wheel", {}).get("path")
+            if wp and os.path.exists(wp):
+                with zipfile.ZipFile(wp) as z:
+                    rec = [n for n in z.namelist() if n.endswith(".dist-info/RECORD")]
+                    out["wheel_record_rows"] = [r for r in csv.reader(io.StringIO(z.read(rec[0]).decode("utf-8")))] if rec else None
+                    out["wheel_members"] = [[i.filename, (i.external_attr >> 16) & 0xFFFF, list(i.date_time)] for i in z.infolist()]
+        except Exception as e:  # noqa
+            out["wheel_read_error"] = repr(e)
         errs = {k: v["error"] for k, v in base_res.items() if isinstance(v, dict) and "error" in v}
         if "wheel" in errs and "sdist" in errs:
             # not a buildable project: outside the quantifier of all three properties
